@@ -349,7 +349,76 @@ def small_durations(ctx, rep):
             rep.fail("R15.4", "SmallType::%s:write" % var, "the writer's decision table could not be evaluated (%s)" % undecided, b.loc())
         else:
             rep.check("R15.4", "SmallType::%s:write" % var, bad is None, bad or "", b.loc(), sample={"variant": var, "unit_ms": S, "probes": len(probes)})
-    rep.floor("R15.4", 5)
+    small_reader(ctx, rep, units)
+    rep.floor("R15.4", 10)
+
+
+SMALL_R = "<insim::insim::small::SmallType as binrw::binread::BinRead>::read_options"
+
+
+def small_reader(ctx, rep, units):
+    """R15.4 (decode side): the IS_SMALL reader's decision table evaluated for every duration variant and boundary values of
+    the 32-bit UVal: the duration built must be exactly UVal x unit milliseconds - computed wide enough not to wrap (u32::MAX
+    centiseconds is 42 949 672 950 ms) - so that it re-encodes to the same UVal."""
+    import tabeval
+    from mirq import inline_calls
+    rb = ctx.mir.body(SMALL_R)
+    if rb is None:
+        rep.fail("R15.4", "small:read:found", "impl BinRead for SmallType not found")
+        return
+    rep.fn(SMALL_R)
+    local = lambda d: (d.startswith("insim::insim::small::") or d.startswith("<insim::insim::small::")) and not d.endswith("read_options")
+    rb = inline_calls(rb, local, depth=4)
+    try:
+        rows = rb.decision_rows()
+    except Exception as e:
+        rep.fail("R15.4", "small:read:table", "decision table of the SmallType reader not extractable (%s)" % e, rb.loc())
+        return
+    probe = [0]
+
+    def leaf(o, m):
+        if o[0] == "field" and o[1][0] == "downcast" and o[1][1][0] == "call" and (o[1][1][1] or "").endswith("Try::branch"):
+            inner = o[1][1][3][0] if o[1][1][3] else None
+            ga = inner[5] if inner is not None and inner[0] == "call" and len(inner) > 5 and inner[5] else []
+            if inner is not None and inner[0] == "call" and (inner[1] or "").endswith("BinRead::read_options") and ga and str(ga[0]) == "u32":
+                return probe[0]
+        return None
+    model = tabeval.Model(ctx, rb, None, local_prefix="insim::insim::small::", extra_leaf=leaf)
+    probes = [0, 1, 9, 100, 65535, 429496729, 429496730, 2 ** 31, 2 ** 32 - 2, 2 ** 32 - 1]
+    seen = {}
+    for r in rows:
+        ret = r[1]
+        if ret[1] != "Ok" or not ret[3]:
+            continue
+        p0 = ret[3][0]
+        if not (p0[0] == "agg" and p0[1][0] == "adt" and str(p0[1][1]).endswith("SmallType") and p0[2]):
+            continue
+        var = p0[1][3]
+        if var.upper() not in units:
+            continue
+        a = p0[2][0]
+        S = units[var.upper()]
+        bad = seen.setdefault(var, [None, None])
+        if not (a[0] == "call" and (a[1] or "").endswith("Duration::from_millis")):
+            bad[1] = "the duration of %s is not built with Duration::from_millis" % var
+            continue
+        for pv in probes:
+            probe[0] = pv
+            model.ev.reset()
+            try:
+                v = model.ev.ev(a[3][0])
+            except tabeval.Panic as e:
+                v = "a trap (%s)" % e
+            except tabeval.Unknown as e:
+                bad[1] = "UVal %d: %s" % (pv, e)
+                break
+            if v != pv * S:
+                bad[0] = bad[0] or "UVal %d decodes to %s ms, the field's unit of %d ms gives %d ms" % (pv, v, S, pv * S)
+    for var, (wrong, undecided) in sorted(seen.items()):
+        if undecided:
+            rep.fail("R15.4", "SmallType::%s:read" % var, "the reader's conversion could not be evaluated (%s)" % undecided, rb.loc())
+        else:
+            rep.check("R15.4", "SmallType::%s:read" % var, wrong is None, wrong or "", rb.loc(), sample={"variant": var, "unit_ms": units[var.upper()], "probes": len(probes)})
 
 
 def idx_disc(ctx, var):
